@@ -65,12 +65,13 @@ esac
 ID=$1; TIER=${2:-${VERIF_TIER:-quick}}
 [ -d cmd/gencatalog ] && gen
 if [ "$ID" = C08 ]; then
+  buildyield
   SC=.scratch/c08.$$; mkdir -p $SC; buildsched $SC
   $SC/vsched C08 "$TIER"; rc=$?; rm -rf $SC; exit $rc
 fi
 build .build/vcheck.$$ ./cmd/vcheck
 [ "$ID" = C19 ] && build .build/crashchild ./cmd/crashchild
-case "$ID" in C05|C06|C09|C10|C11|C12|C14|C16|C17|C18|C20) buildyield;; esac
+case "$ID" in C01|C05|C06|C07|C09|C10|C11|C12|C14|C16|C17|C18|C20) buildyield;; esac
 if [ "$ID" = C02 ] || [ "$ID" = C03 ]; then   # the pairing-handler scheduler binary (overlay build), next to vcheck
   SC=.scratch/pair.$$; mkdir -p $SC; overlay $SC/ov
   build .build/vsched-pair ./cmd/vsched -overlay "$SC/ov/overlay.json"; rm -rf $SC
